@@ -49,7 +49,7 @@ written for both values. -/
 /-- `case 7` sets all `pi->caption_language[]` to NULL *before* it compares them with the new values
     (so every packet naming a language counts as changed and is never announced by its repeat);
     `false`: the new values are compared with the stored ones (fixes/C09-capsvc-never-announced.diff) -/
-def capLangClearedFirst : Bool := true
+def capLangClearedFirst : Bool := false
 /-- `flush_prog_info` copies `pi->aspect` into the event *before* `vbi_reset_prog_info`, so the ASPECT
     event announces the value that was just erased; `false`: it announces the value now stored -/
 def flushSendsOldAspect : Bool := true
@@ -57,7 +57,7 @@ def flushSendsOldAspect : Bool := true
     aspect ratio packet of the *future* class changes the current programme (and sends ASPECT);
     `false`: it uses `pi->aspect`, ASPECT and `aspect_source` only for the current class
     (fixes/C09-future-aspect-overwrites-current.diff) -/
-def aspectAlwaysCurrent : Bool := true
+def aspectAlwaysCurrent : Bool := false
 
 /-! ## character arrays -/
 
